@@ -381,6 +381,8 @@ class C24(Property):
 
     # ------------------------------------------------------------------------------------------------------------
     def explore(self, ctx: Ctx) -> None:
+        from sfv.rt.shfake import limit_failures
+        limit_failures(ctx)
         self._setup(ctx)
         rng = ctx.rng
         big = ctx.tier == "thorough" or ctx.mode == "search"
